@@ -61,7 +61,9 @@ def main(tier):
                 # a burst as long as the retry loop itself (every retry of one refit fails)
                 plans.append([dict(seam="fit", k=rng.randrange(2, M + 1), len=rng.randrange(9, 13), kind=gen._choice(rng, ["entry", "mid"]))])
             if L:
-                plans.append([dict(seam="update", k=rng.randrange(1, L + 1))])
+                # boundary positions (first and last local refit) plus a random one
+                for k in sorted({1, L, rng.randrange(1, L + 1)}):
+                    plans.append([dict(seam="update", k=k)])
                 plans.append([dict(seam="update", k=rng.randrange(1, L + 1)), dict(seam="fit", k=rng.randrange(1, M + 1), len=2, kind="mid")])
         else:
             for k in range(1, M + 1):
